@@ -749,6 +749,39 @@ mut("c18-fold-helper-silent-or-bit", "C18", "nucleotide.go", "c += 'a' - 'A'", "
 mut("c18-fold-helper-silent-index-loop", "C18", "nucleotide.go", "\tfor i, c := range p {\n\t\tif 'A' <= c && c <= 'Z' {\n\t\t\tc += 'a' - 'A'\n\t\t}\n\t\tq[i] = c\n\t}", "\tfor i := 0; i < len(p); i++ {\n\t\tc := p[i]\n\t\tif c >= 'A' && c <= 'Z' {\n\t\t\tc = c - 'A' + 'a'\n\t\t}\n\t\tq[i] = c\n\t}", silent=True, note="the same fold as a counted loop")
 mut("c18-fold-inline-silent", "C18", "sequence.go", "s := lowerBytes(seq.Bytes())", "raw := seq.Bytes()\n\ts := make([]byte, len(raw))\n\tfor i, c := range raw {\n\t\tif 'A' <= c && c <= 'Z' {\n\t\t\tc += 32\n\t\t}\n\t\ts[i] = c\n\t}", silent=True, note="the fold written out in Search itself")
 
+# ---------------------------------------------------------------- round-6 rules
+mut("c15-backfront-insert-unsorted", "C15", "cmd/gts/insert.go", "\t\tsort.Sort(sort.Reverse(sort.IntSlice(indices)))\n", "\t\t_ = sort.Ints\n", ["BACK-TO-FRONT|main.insertFunc|edit-loop#1"], note="the insertion points are used in table order")
+mut("c15-backfront-insert-ascending", "C15", "cmd/gts/insert.go", "\t\tsort.Sort(sort.Reverse(sort.IntSlice(indices)))\n", "\t\tsort.Ints(indices)\n", ["BACK-TO-FRONT|main.insertFunc|edit-loop#1"], note="sorted, but walked from the near end")
+mut("c15-backfront-delete-not-flipped", "C15", "cmd/gts/delete.go", "\t\tflip.Flip(gts.BySegment(ss))\n", "\t\t_ = flip.Flip\n", ["BACK-TO-FRONT|main.deleteFunc|edit-loop#1"])
+mut("c15-backfront-silent-ascending-walked-down", "C15", "cmd/gts/insert.go",
+    "\t\tsort.Sort(sort.Reverse(sort.IntSlice(indices)))\n", "\t\tsort.Ints(indices)\n", silent=True,
+    old2="\t\t\tfor _, index := range indices {\n\t\t\t\tout = insert(out, index, guest)\n\t\t\t}", new2="\t\t\tfor k := len(indices) - 1; k >= 0; k-- {\n\t\t\t\tout = insert(out, indices[k], guest)\n\t\t\t}",
+    note="ascending order walked from the last index down is the same order of application")
+mut("c02-lendelegate-contig-fallback", "C02", "seqio/genbank.go", "func (gb GenBank) Len() int {\n\treturn gb.Origin.Len()\n}", "func (gb GenBank) Len() int {\n\tif n := gb.Origin.Len(); n != 0 {\n\t\treturn n\n\t}\n\treturn gb.Fields.Contig.Region.Len()\n}", ["LEN-DELEGATE|gts/seqio.GenBank"])
+mut("c03-quantall-within-skips-parts", "C03", "location.go", "\t\tfor _, l := range v.slice() {\n\t\t\tif !LocationWithin(l, lower, upper) {\n\t\t\t\treturn false\n\t\t\t}\n\t\t}\n\t\treturn true", "\t\tfor _, l := range v.slice() {\n\t\t\tif c, ok := l.(contiguousLocation); ok {\n\t\t\t\ts, e := c.span()\n\t\t\t\tif !rangeWithin(s, e, lower, upper) {\n\t\t\t\t\treturn false\n\t\t\t\t}\n\t\t\t}\n\t\t}\n\t\treturn true", ["QUANT-ALL|gts.LocationWithin"])
+mut("c05-regiondelegate-head-tail", "C05", "region.go", "\t\tret[len(rr)-i-1] = r.Complement()\n", "\t\tret[len(rr)-i-1] = Segment{r.Tail(), r.Head()}\n", ["REGION-DELEGATE|gts.Regions.Complement"])
+mut("c05-regiondelegate-silent-temp", "C05", "region.go", "\t\tret[len(rr)-i-1] = r.Complement()\n", "\t\tc := r.Complement()\n\t\tret[len(rr)-i-1] = c\n", silent=True)
+mut("c07-honour-guard-dropped", "C07", "seqio/genbank.go", "\t\t\tif !state.Pushed() {\n\t\t\t\treturn err\n\t\t\t}\n\t\t\tstate.Pop()\n", "\t\t\tstate.Pop()\n", ["COMMIT-HONOUR|seqio.tryAllParsers"])
+mut("c07-honour-silent-positive-form", "C07", "seqio/genbank.go", "\t\t\tif !state.Pushed() {\n\t\t\t\treturn err\n\t\t\t}\n\t\t\tstate.Pop()\n", "\t\t\tif state.Pushed() {\n\t\t\t\tstate.Pop()\n\t\t\t\tcontinue\n\t\t\t}\n\t\t\treturn err\n", silent=True, note="the same protocol with the test the other way round")
+mut("c01-locussep-computed-width", "C01", "seqio/genbank.go", "\"%-12s%-17s %10d bp %6s     %-9s%s %s\", \"LOCUS\", gb.Fields.LocusName,\n", "\"%-12s%s%*d bp %6s     %-9s%s %s\", \"LOCUS\", gb.Fields.LocusName, 28-len(gb.Fields.LocusName),\n", ["LOCUS-SEP|seqio.GenBank.String|LOCUS"])
+mut("c01-locussep-topology-width", "C01", "seqio/genbank.go", "%6s     %-9s%s %s\", \"LOCUS\"", "%6s     %-8s%s %s\", \"LOCUS\"", ["LOCUS-SEP|seqio.GenBank.String|LOCUS"], note="`circular` has eight letters: a width of 8 leaves no blank before the division")
+mut("c01-locussep-silent-wider-name", "C01", "seqio/genbank.go", "\"%-12s%-17s %10d bp", "\"%-12s%-24s %10d bp", silent=True, note="a wider name column still ends in a literal blank")
+mut("c16-originparsed-guard-hoisted", "C16", "seqio/origin.go", "\tif !o.Parsed {\n\t\tp := o.Buffer\n\t\tif len(p) < 12 {\n\t\t\treturn nil\n\t\t}\n", "\tp := o.Buffer\n\tif len(p) < 12 {\n\t\treturn nil\n\t}\n\tif !o.Parsed {\n", ["ORIGIN-PARSED|seqio.Origin.Bytes"])
+mut("c16-originparsed-silent-early-return", "C16", "seqio/origin.go", "func (o *Origin) Bytes() []byte {\n\tif !o.Parsed {", "func (o *Origin) Bytes() []byte {\n\tif o.Parsed {\n\t\treturn o.Buffer\n\t}\n\tif !o.Parsed {", silent=True)
+mut("c15-walkprefix-stale-index", "C15", "region.go", "\t\tlower -= rr[left].Len()\n\t\tleft++\n", "\t\tleft++\n\t\tlower -= rr[left].Len()\n", ["WALK-PREFIX|gts.Regions.Resize|consume#1"])
+mut("c19-rangepred-clipped-overlap", "C19", "location.go", "\treturn s < u && l < e\n}", "\tif s < l {\n\t\ts = l\n\t}\n\tif u < e {\n\t\te = u\n\t}\n\treturn s < e\n}", ["E7-RANGE|gts.rangeOverlap"])
+mut("c19-rangepred-within-strict", "C19", "location.go", "\treturn l <= s && e <= u\n}", "\treturn l <= s && e < u\n}", ["E7-RANGE|gts.rangeWithin"])
+mut("c19-rangepred-silent-demorgan", "C19", "location.go", "\treturn s < u && l < e\n}", "\treturn !(u <= s || e <= l)\n}", silent=True)
+mut("c19-loopcapture-shared-clause", "C19", "feature.go", "\t\tprops, err := toQualifier(head)\n\t\tif err != nil {\n\t\t\treturn FalseFilter, err\n\t\t}\n\t\tfilter = And(filter, props)\n", "\t\tif props, err = toQualifier(head); err != nil {\n\t\t\treturn FalseFilter, err\n\t\t}\n\t\tprev := filter\n\t\tfilter = func(f Feature) bool { return prev(f) && props(f) }\n", ["LOOP-CAPTURE|gts.Selector|literal#1"],
+    old2="\thead, tail := shiftSelector(sel)\n\tfilter := Key(head)\n", new2="\tvar (\n\t\tprops Filter\n\t\terr   error\n\t)\n\thead, tail := shiftSelector(sel)\n\tfilter := Key(head)\n")
+mut("c19-loopcapture-silent-per-iteration", "C19", "feature.go", "\t\tfilter = And(filter, props)\n", "\t\tprev, clause := filter, props\n\t\tfilter = func(f Feature) bool { return prev(f) && clause(f) }\n", silent=True, note="copies declared inside the loop are fresh per iteration")
+mut("c13-payload-percent-v", "C13", "cmd/gts/io.go", "\tp, err := json.Marshal(tt)\n\tif err != nil {\n\t\tpanic(err)\n\t}\n\treturn p\n", "\tb := &bytes.Buffer{}\n\tfor _, t := range tt {\n\t\tfmt.Fprintf(b, \"%v=%v\\n\", t[0], t[1])\n\t}\n\t_ = json.Marshal\n\treturn b.Bytes()\n", ["PAYLOAD-ENCODE|main.encodePayload"], old2="import (\n", new2="import (\n\t\"bytes\"\n\t\"fmt\"\n")
+mut("c14-hash-crc32", "C14", "cmd/gts/hash.go", "\treturn sha1.New()\n", "\t_ = sha1.New\n\treturn crc32.NewIEEE()\n", ["HASH-STRONG|main.newHash"], old2="import (\n", new2="import (\n\t\"hash/crc32\"\n")
+mut("c14-hash-silent-sha256", "C14", "cmd/gts/hash.go", "\treturn sha1.New()\n", "\t_ = sha1.New\n\treturn sha256.New()\n", silent=True, old2="import (\n", new2="import (\n\t\"crypto/sha256\"\n")
+mut("c14-maporder-caseless-tiebreak", "C14", "cmd/gts/summary.go", "\treturn pp[i].Key < pp[j].Key\n", "\treturn strings.ToLower(pp[i].Key) < strings.ToLower(pp[j].Key)\n", ["MAP-ORDER|main.summaryFunc|map-range#1(keys)", "MAP-ORDER|main.summaryFunc|map-range#2(props)"])
+mut("c14-maporder-unsorted", "C14", "cmd/gts/summary.go", "\t\tsort.Sort(byValue(props))\n", "", ["MAP-ORDER|main.summaryFunc|map-range#2(props)"])
+mut("c14-maporder-silent-descending", "C14", "cmd/gts/summary.go", "\treturn pp[i].Key < pp[j].Key\n", "\treturn pp[j].Key > pp[i].Key\n", silent=True)
+
 if __name__ == "__main__":
     here = os.path.dirname(os.path.abspath(__file__))
     ids = [m["id"] for m in M]
